@@ -484,7 +484,7 @@ MustOffer(s, p) ==
 \* partial items worth asking about for a definition
 Partials(d) ==
   {[k |-> "fresh"], [k |-> "dash"], [k |-> "long", cs |-> <<>>]}
-  \cup UNION {UNION {{[k |-> "long", cs |-> SubSeq(l.named[j].lchars[1], 1, n)] : n \in {1, Len(l.named[j].lchars[1]) - 1} \ {0}}
+  \cup UNION {UNION {{[k |-> "long", cs |-> SubSeq(l.named[j].lchars[1], 1, n)] : n \in {1, Len(l.named[j].lchars[1]) - 1, Len(l.named[j].lchars[1])} \ {0}}
                       : j \in {j \in DOMAIN l.named : l.named[j].longs # <<>>}} : l \in AllLevels(d)}
   \cup UNION {{[k |-> "short", s |-> l.named[j].shorts[1]] : j \in {j \in DOMAIN l.named : l.named[j].shorts # <<>>}} : l \in AllLevels(d)}
   \cup UNION {UNION {{[k |-> "word", cs |-> SubSeq(c.nchars[1], 1, n)] : n \in {1, Len(c.nchars[1])}} : c \in LevelCmds(l)} : l \in AllLevels(d)}
